@@ -1,7 +1,7 @@
 (* Wire-level entry point of the C09 model.
    case: <start document as in C04, without queries> op ...
      op 0: generate  k d r f scope nbits bits...      op 1: purge  d r f nbits bits...
-   every method payload of the start document is a stored key with its key id recorded *)
+   every method payload < 500 of the start document is a stored key with its key id recorded; payloads >= 500 are keyless methods *)
 From Coq Require Import List ZArith Bool.
 From IdV Require Import Lib.Wire Doc.Doc Storage.GenPurge Run.C04Run.
 Import ListNotations.
@@ -31,7 +31,7 @@ Definition c09_run (input : list Z) : list Z :=
           let d := {| d_vm := vm;
                       d_rels := fun r => match r with RAuth => e1 | RAssert => e2 | RKeyAgr => e3 | RCapDel => e4 | RCapInv => e5 end;
                       d_svc := sv |} in
-          let datas := c09_method_datas d in
+          let datas := filter (fun k => k <? 500) (c09_method_datas d) in     (* payloads >= 500: keyless methods (nothing in the stores) *)
           let st := {| s_doc := d; s_keys := datas; s_kids := map (fun k => (k, k)) datas |} in
           if op =? 0 then
             match r6 with
